@@ -108,6 +108,7 @@ func (g *gen) declare(name, typ string, e ex) *vinfo {
 		v.growing = g.chance(50)
 		v.minLen = e.minLen
 		v.appends = e.minLen
+		v.fromLit = e.n != nil && e.n.K == "slit"
 	default:
 		if isArray(typ) {
 			v.minLen, _ = arrSplit(typ)
@@ -220,6 +221,14 @@ func (g *gen) genStmt() (n *Node, term bool) {
 		9,  // 15 side-note statements (side.go)
 		0,  // 16 goto
 		0,  // 17 array statement
+		0,  // 18 type switch
+		0,  // 19 method value
+	}
+	if g.tswProg && !g.f.inInit && g.on(kTypeSwitch) {
+		w[18] = 8
+	}
+	if g.mvalProg && !g.f.inInit && !g.f.inLambda && g.on(kMethodValue) {
+		w[19] = 8
 	}
 	if len(g.arrayVars(nil)) > 0 {
 		w[17] = 12
@@ -231,7 +240,7 @@ func (g *gen) genStmt() (n *Node, term bool) {
 		w[7] = 14 // the exported functions are where the effects of the helpers become results
 	}
 	if deep {
-		w[2], w[3], w[4], w[10], w[13], w[16] = 2, 0, 0, 0, 0, 0
+		w[2], w[3], w[4], w[10], w[13], w[16], w[18] = 2, 0, 0, 0, 0, 0, 0
 	}
 	if len(g.f.loops) == 0 {
 		w[5] = 0
@@ -304,6 +313,13 @@ func (g *gen) genStmt() (n *Node, term bool) {
 		return g.stGoto(), false
 	case 17:
 		if n := g.stArray(); n != nil {
+			return n, false
+		}
+		return g.stAssign(), false
+	case 18:
+		return g.stTypeSwitch(), false
+	case 19:
+		if n := g.stMethodValue(); n != nil {
 			return n, false
 		}
 		return g.stAssign(), false
@@ -422,6 +438,9 @@ func (g *gen) intTarget() (*Node, bool) {
 					for _, nf := range nd.Fields {
 						if nf.Type == "int" {
 							c = append(c, &Node{K: "field", S: nf.Name, A: []*Node{{K: "field", S: f.Name, A: []*Node{selBase(v)}}}})
+							if f.Name == sd.Emb {
+								c = append(c, &Node{K: "field", S: nf.Name, A: []*Node{selBase(v)}}) // promoted field
+							}
 						}
 					}
 				}
@@ -550,10 +569,20 @@ func (g *gen) stAssign() *Node {
 		return &Node{K: "assign", S: []string{"/=", "%="}[g.n(2, "dm")], A: []*Node{t, e.n}}
 	case 5:
 		g.mark("compound-assign")
+		if g.chance(20) && g.on(kShiftCount) {
+			g.mark("shift-count-large")
+			return &Node{K: "assign", S: ">>=", A: []*Node{t, ilit([]int64{64, 256, 257, 300}[g.n(4, "shrb")])}}
+		}
 		return &Node{K: "assign", S: ">>=", A: []*Node{t, ilit(int64(g.n(6, "shr")))}}
 	case 6:
 		g.mark("compound-assign")
-		return &Node{K: "assign", S: "&=", A: []*Node{t, ilit([]int64{1, 3, 7, 15, 255, 65535}[g.n(6, "andc")])}}
+		op := "&="
+		if g.chance(40) && g.on(kAndNot) {
+			// (clearing bits moves a negative value away from zero by at most the mask: an additive update)
+			op = "&^="
+			g.mark("and-not")
+		}
+		return &Node{K: "assign", S: op, A: []*Node{t, ilit([]int64{1, 3, 7, 15, 255, 65535}[g.n(6, "andc")])}}
 	case 7:
 		g.mark("compound-assign")
 		return &Node{K: "seq", B: []*Node{
@@ -1328,7 +1357,7 @@ func (g *gen) stCall() *Node {
 		if f.exported {
 			continue
 		}
-		if f.recv != "" && len(g.varsOf(f.recv)) == 0 {
+		if f.recv != "" && len(g.recvVars(f)) == 0 {
 			continue
 		}
 		if g.callOK(f, false) {
@@ -1377,7 +1406,7 @@ func (g *gen) stCall() *Node {
 	}
 	var call *Node
 	if f.recv != "" {
-		rv := g.pickVar(f.recv, nil)
+		rv := g.pickRecv(f)
 		g.useVar(rv)
 		if f.mutRecv {
 			g.noteWrite(vr(rv.name))
